@@ -207,6 +207,7 @@ type Thread struct {
 	panicking *PanicInfo
 	done     bool
 	blocked  bool
+	ackChan  int // unbuffered send handed over, waiting for the receiver
 }
 
 func (t *Thread) clone() *Thread {
@@ -246,6 +247,9 @@ type State struct {
 	// counters for stubs (e.g. monotone cancellation)
 	stub map[string]Value
 	switches int
+	committed bool
+	shared   []Ptr
+	raceSeen bool
 }
 
 func (s *State) clone() *State {
